@@ -200,6 +200,8 @@ class SerialSim:
         self.latencies = []      # scripted unit draws in [0, 1), consumed in order; default 0.5
         self.coalesce = []       # scripted booleans, consumed in order: merge the next chunk into this read?
         self.coalesced = 0
+        self.splits = []         # scripted (k, gap): this read returns k bytes only, the rest after `gap` seconds
+        self.split_reads = 0
         self.gw = LubaGateway(self) if kind == "luba" else SciGateway(self)
         self._saved = sermod.serial_asyncio
         sermod.serial_asyncio = FakeSerialAsyncio(self)
@@ -258,6 +260,17 @@ class SerialSim:
             self.coalesced += 1
         if due > self.loop.time():
             self.loop.advance(due - self.loop.time())
+        if split is None and self.splits:
+            # scripted: the read returns only the first k bytes; the rest arrives `gap` seconds later (before
+            # anything that follows it on the line)
+            k, gap = self.splits.pop(0)
+            if k and 0 < k % len(chunk) and len(chunk) > 1:
+                k = k % len(chunk)
+                rest_due = self.loop.time() + gap
+                self.gw.pending.insert(0, (rest_due, chunk[k:]))
+                self.gw.pending = [(max(d, rest_due) if j else d, c) for j, (d, c) in enumerate(self.gw.pending)]
+                chunk = chunk[:k]
+                self.split_reads += 1
         self.delivered.append((self.loop.time(), chunk))
         if split and 0 < split < len(chunk):
             self.loop.call_soon(self.protocol.data_received, chunk[:split])
